@@ -70,6 +70,18 @@ func BoundaryInts() []starlark.Int {
 		b.SetString(s, 10)
 		out = append(out, starlark.MakeBigInt(&b))
 	}
+	// around the largest integer a one-byte length field can describe (255 bytes, signed) and well beyond it
+	for _, bits := range []uint{2031, 2032, 2039, 2040, 2047, 2048, 4096, 8192} {
+		for _, d := range []int64{-1, 0, 1} {
+			var b big.Int
+			b.Lsh(big.NewInt(1), bits)
+			b.Add(&b, big.NewInt(d))
+			out = append(out, starlark.MakeBigInt(&b))
+			var n big.Int
+			n.Neg(&b)
+			out = append(out, starlark.MakeBigInt(&n))
+		}
+	}
 	return out
 }
 
@@ -102,7 +114,11 @@ func (g *Gen) Int() starlark.Int {
 	case 5:
 		var b big.Int
 		b.SetUint64(g.R.Uint64())
-		b.Lsh(&b, uint(g.R.IntN(200)))
+		if g.R.IntN(8) == 0 {
+			b.Lsh(&b, uint(g.R.IntN(5000))) // up to ~630 bytes: beyond what a one-byte length field describes
+		} else {
+			b.Lsh(&b, uint(g.R.IntN(200)))
+		}
 		if g.R.IntN(2) == 0 {
 			b.Neg(&b)
 		}
